@@ -11,6 +11,7 @@
 -/
 import PV.Model.BufFileLemmas
 import PV.Model.BufFileULemmas
+import PV.Model.ChanFile
 namespace PV.Props.C42
 open PV PV.BufFile
 
@@ -697,6 +698,103 @@ example :
     okLines (iterAllU chanOps { f := f [3] }).2
       = some ["one\n".toUTF8.toList, "two\n".toUTF8.toList, "\n".toUTF8.toList, "three\n".toUTF8.toList] ∧
     okLines (iterAllU chanOps { f := f [] }).2 = okLines (iterAllU chanOps { f := f [3] }).2 := by
+  decide +kernel
+
+/-! ## the channel file classes (ChannelFile / ChannelStderrFile / ChannelStdinFile)
+
+  Their `_read` / `_write` are an instance of the stream above (recv may be short, sendall takes everything), so
+  every theorem of this file applies to them unchanged.  What `ChannelStdinFile` adds is the order of `close()`:
+  flush first, EOF (`shutdown_write`) afterwards.  `atEof` records what the channel had received when the first
+  EOF went out. -/
+
+/-- `ChannelStdinFile.close()`: everything still buffered reaches the channel BEFORE the EOF, whatever the
+    buffering mode; the file is closed and exactly one more `shutdown_write()` has been made. -/
+theorem stdin_close_delivers_before_eof (c : CF) (hs : c.stdin = true) (hn : c.atEof = none) :
+    (closeC c).2 = .ok () ∧ (closeC c).1.atEof = some (c.f.s.out ++ c.f.wbuf) ∧
+    (closeC c).1.f.s.out = c.f.s.out ++ c.f.wbuf ∧ (closeC c).1.f.wbuf = [] ∧
+    (closeC c).1.f.closed = true ∧ (closeC c).1.eofs = c.eofs + 1 := by
+  unfold closeC
+  obtain ⟨h1, h2, h3, _, _, h6⟩ := close_chan c.f
+  rcases hres : close chanOps c.f with ⟨f1, r1⟩
+  rw [hres] at h1 h2 h3 h6
+  simp only at h1 h2 h3 h6
+  subst h1
+  simp only [hs, if_true, hn]
+  exact ⟨by triv, by rw [h2], h2, h3, h6, by triv⟩
+
+/-- the plain channel files never half-close the channel -/
+theorem plain_close_sends_no_eof (c : CF) (hs : c.stdin = false) :
+    (closeC c).1.eofs = c.eofs ∧ (closeC c).1.atEof = c.atEof := by
+  unfold closeC
+  rcases close chanOps c.f with ⟨f1, r1⟩
+  cases r1 <;> simp [hs]
+
+private theorem runC_no_close (c : CF) (prog : List Op) (h : ∀ op ∈ prog, op ≠ .close) :
+    runC c prog = ({ c with f := (run chanOps c.f prog).1 }, (run chanOps c.f prog).2) := by
+  induction prog generalizing c with
+  | nil => rfl
+  | cons op ops ih =>
+    have hop : op ≠ .close := h op (by simp)
+    have hstep : stepC c op = ({ c with f := (step chanOps c.f op).1 }, (step chanOps c.f op).2) := by
+      cases op <;> first | rfl | exact absurd rfl hop
+    simp only [runC, run, hstep]
+    rw [ih _ (fun o ho => h o (by simp [ho]))]
+
+private theorem closeC_atEof (c : CF) (x : Bytes) (h : c.atEof = some x) : (closeC c).1.atEof = some x := by
+  unfold closeC
+  rcases close chanOps c.f with ⟨f1, r1⟩
+  cases r1 with
+  | error e => exact h
+  | ok u =>
+    by_cases hs : c.stdin = true
+    · simp only [hs, if_true, h]
+    · simp only [hs, Bool.false_eq_true, if_false]; exact h
+
+private theorem stepC_close_fst (c : CF) : (stepC c .close).1 = (closeC c).1 := by
+  simp only [stepC]
+  rcases closeC c with ⟨c1, r1⟩
+  cases r1 <;> rfl
+
+private theorem atEof_sticky (c : CF) (x : Bytes) (h : c.atEof = some x) (prog : List Op) :
+    (runC c prog).1.atEof = some x := by
+  induction prog generalizing c with
+  | nil => exact h
+  | cons op ops ih =>
+    simp only [runC]
+    apply ih
+    cases op with
+    | close => rw [stepC_close_fst]; exact closeC_atEof c x h
+    | _ => exact h
+
+/-- **ChannelStdinFile, whole programs.**  For every buffering mode and every program of calls that ends in
+    `close()` (directly or by leaving a `with` block), whatever is done with the file afterwards (a second close,
+    late writes): the bytes the channel had received when the EOF went out are exactly the bytes written, in order. -/
+theorem stdin_eof_after_all_data (f : BF Chan) (prog rest : List Op) (hg : Good f)
+    (h0 : f.s.out = [] ∧ f.wbuf = []) (hnc : ∀ op ∈ prog, op ≠ .close) :
+    (runC { f := f, stdin := true } (prog ++ [.close] ++ rest)).1.atEof
+      = some (sentAll prog (run chanOps f prog).2) := by
+  have hrun : ∀ (c : CF) (p q : List Op), runC c (p ++ q) = ((runC (runC c p).1 q).1, (runC c p).2 ++ (runC (runC c p).1 q).2) := by
+    intro c p q
+    induction p generalizing c with
+    | nil => simp [runC]
+    | cons a p ih => simp [runC, ih]
+  rw [List.append_assoc, hrun, runC_no_close _ prog hnc]
+  simp only
+  rw [hrun]
+  simp only
+  apply atEof_sticky
+  obtain ⟨_, p2, _, _⟩ := stream_preserved f prog hg
+  rw [h0.1, h0.2] at p2
+  simp only [List.nil_append] at p2
+  have hc := stdin_close_delivers_before_eof { f := (run chanOps f prog).1, stdin := true } rfl rfl
+  simp only [runC]
+  rw [stepC_close_fst, hc.2.1, p2]
+
+/-- non-vacuity: a line-buffered stdin wrapper with a partial line pending, closed twice, then written to -/
+example :
+    let f : BF Chan := setMode { s := { inp := [], rg := [], wg := [] } } "wb".toList 1 0
+    let r := runC { f := f, stdin := true } [.write "ab\ncd".toUTF8.toList, .close, .close, .write [65]]
+    r.1.atEof = some "ab\ncd".toUTF8.toList ∧ r.1.eofs = 2 ∧ r.1.f.s.out = "ab\ncd".toUTF8.toList := by
   decide +kernel
 
 end PV.Props.C42
